@@ -44,6 +44,12 @@ def step (s : Unit) (line : String) : Unit × String :=
   | "f" :: _ =>
     match arg? ws "fn", (arg? ws "a").bind parseBitsList with
     | some fn, some a =>
+      match fn, a with
+      | "esl_stats_erfc", [x] => (s, s!"ok {hex64 (Num.erfc x).toBits}")
+      | "esl_stats_LogGamma", [x] => (s, s!"ok {hex64 (Num.logGamma x).toBits}")
+      | "esl_stats_IncGammaP", [a, x] => (s, s!"ok {hex64 (Num.incGammaP a x).toBits}")
+      | "esl_stats_IncGammaQ", [a, x] => (s, s!"ok {hex64 (Num.incGammaQ a x).toBits}")
+      | _, _ =>
       match Gen.dispatch fn a with
       | some v => (s, s!"ok {hex64 v.toBits}")
       | none => (s, "unmodelled")
